@@ -12,7 +12,7 @@
 use monitors::gen::{small_q, small_q_nonzero};
 use monitors::prng::{Rng, H64};
 use monitors::report::{guarded, run_cases, take_poison, Config, Report, Sub, Violation};
-use monitors::Q;
+use monitors::{Bf, Q};
 use num_traits::real::Real;
 use props::*;
 use std::collections::HashMap;
@@ -911,7 +911,6 @@ fn start_watchdog(cfg: &Config) {
         };
         if let Some((sub, api, ty, ctx, idx)) = hit {
             let mut rep = Report::new(cfg.clone());
-    start_watchdog(&cfg);
             rep.note("in-process watchdog: a vek call did not return; this document holds only that finding, the other sub-checks' results were discarded");
             let mut s = Sub::new(&sub, "watchdog report: a closest-point search call did not return within the limit");
             s.saw(&api);
@@ -1085,6 +1084,110 @@ fn search_f64<C: CvE<f64>>(sub: &mut Sub, cfg: &Config, idx: u64) {
         Some((what, msg)) => {
             let v = violation(PROP, sub, &api, "f64", "wrong_value", what, format!("{}: {}", ctx, msg), cfg.case_seed(), idx);
             conclude(sub, h.get(), true, vec![v]);
+        }
+    }
+}
+
+// ------------------------------------------------------------------ bounded progress of the search loops
+//
+// `Bf` is an f64 that counts the scalar operations vek applies to it and panics once a per-case
+// budget is exhausted, so "the call returned within N operations" is an observation made on logical
+// steps, not on a wall clock.  A normal search costs about 60 operations per curve evaluation and
+// at most a few hundred evaluations; the budget is three to four orders of magnitude above that.
+
+const PROGRESS_BUDGET: u64 = 20_000_000;
+
+fn search_progress<C: CvE<Bf>>(sub: &mut Sub, cfg: &Config, idx: u64) {
+    let mut rng = Rng::for_case(&format!("search_progress/{}", C::NAME), cfg.case_seed(), idx);
+    let (deg, dim) = (C::DEG, C::DIM);
+    let degenerate = rng.chance(1, 16);
+    let p0: Vec<f64> = (0..dim).map(|_| rng.f64_in(-10.0, 10.0)).collect();
+    let pts: Vec<Vec<f64>> = (0..=deg).map(|_| if degenerate { p0.clone() } else { (0..dim).map(|_| rng.f64_in(-10.0, 10.0)).collect() }).collect();
+    // the query: anywhere, on the curve's end point, or exactly a control point (zero distance)
+    let query: Vec<f64> = match rng.below(8) {
+        0 => pts[deg].clone(),
+        1 => pts[0].clone(),
+        _ => (0..dim).map(|_| rng.f64_in(-15.0, 15.0)).collect(),
+    };
+    let eps = *rng.pick(&[0.5, 1e-2, 1e-3, 1e-5, 1e-7, 1e-9]);
+    let c = C::build(&mut |k, d| Bf(pts[k][d]));
+    let q: Vec<Bf> = query.iter().map(|x| Bf(*x)).collect();
+    let by_steps = rng.below(3) != 0;
+    let (api, coarse, setup): (String, Vec<(f64, Vec<f64>)>, String);
+    let got: Result<(Bf, Vec<Bf>), String>;
+    if by_steps {
+        // every sample count a caller can pass, the smallest ones included: 0 samples is legal
+        // ("doesn't panic if coarse yields no element"), the search then starts from the end point
+        let steps = *rng.pick(&[0u16, 0, 1, 1, 2, 3, 5, 8, 16, 33, 100, 1000, 65535]);
+        api = format!("{}::binary_search_point_by_steps", C::NAME);
+        coarse = (0..steps).map(|i| i as f64 / steps as f64).map(|t| (t, bern(&pts, t))).collect();
+        setup = format!("steps = {}, epsilon = {}", steps, eps);
+        Bf::begin(PROGRESS_BUDGET + 400 * steps as u64);
+        got = guarded(|| c.v_search_steps(&q, steps, Bf(eps)));
+    } else {
+        let k = rng.usize_below(8);
+        api = format!("{}::binary_search_point", C::NAME);
+        coarse = (0..k).map(|_| rng.unit_f64()).map(|t| (t, bern(&pts, t))).collect();
+        let h = *rng.pick(&[1.0, 0.5, 0.25, 0.1, 0.03, 1e-3]);
+        setup = format!("coarse parameters {:?}, half_interval = {}, epsilon = {}", coarse.iter().map(|x| x.0).collect::<Vec<_>>(), h, eps);
+        let cc: Vec<(Bf, Vec<Bf>)> = coarse.iter().map(|(t, p)| (Bf(*t), p.iter().map(|x| Bf(*x)).collect())).collect();
+        Bf::begin(PROGRESS_BUDGET);
+        got = guarded(|| c.v_search(&q, cc, Bf(h), Bf(eps)));
+    }
+    let ops = Bf::end();
+    sub.saw(&api);
+    let ctx = format!("control points {:?}, query {:?}, {}", pts, query, setup);
+    let (t, pt) = match got {
+        Ok((t, p)) => (t.0, p.iter().map(|x| x.0).collect::<Vec<f64>>()),
+        Err(e) => {
+            let _ = take_poison();
+            let v = if e.contains("BUDGET_EXCEEDED") {
+                violation(PROP, sub, &api, "Bf", "hang", "search_does_not_terminate", format!("{}: no result after {} scalar operations (an ordinary search takes 1e3..1e5): the property promises a parameter and a point", ctx, ops), cfg.case_seed(), idx)
+            } else {
+                violation(PROP, sub, &api, "Bf", "panic", "search_panic", format!("{}: panicked: {}", ctx, e), cfg.case_seed(), idx)
+            };
+            sub.violated(v);
+            return;
+        }
+    };
+    if let Some(p) = take_poison() {
+        sub.inconclusive(&format!("poison:{}", p));
+        return;
+    }
+    let mut h = H64::new();
+    h.s(&api).f(eps);
+    for x in pts.iter().flatten().chain(query.iter()) {
+        h.f(*x);
+    }
+    h.u(coarse.len() as u64);
+    if !t.is_finite() || t.abs() > 64.0 {
+        sub.inconclusive("ill_conditioned:far_extrapolation");
+        return;
+    }
+    let scale = 80.0 * t.abs().max(1.0).powi(3) + 15.0;
+    let tol_pt = 256.0 * f64::EPSILON * scale;
+    let tol_d = 1024.0 * f64::EPSILON * scale * scale;
+    let on_curve = bern(&pts, t);
+    let d = dist2(&pt, &query);
+    let d_end = dist2(&pts[deg], &query);
+    let worst_coarse = coarse.iter().map(|(tc, pc)| (*tc, dist2(pc, &query))).filter(|(_, dc)| !(d <= *dc + tol_d)).next();
+    let failure = if (0..dim).any(|k| !((pt[k] - on_curve[k]).abs() <= tol_pt)) {
+        Some(("returned_point_is_not_the_curve_point_at_returned_parameter", format!("returned (t, point) = ({}, {:?}) but the curve at t is {:?} (tolerance {:e})", t, pt, on_curve, tol_pt)))
+    } else if let Some((tc, dc)) = worst_coarse {
+        Some(("farther_than_a_coarse_sample", format!("returned (t, point) = ({}, {:?}) at squared distance {}, but the coarse sample at t = {} is at squared distance {}", t, pt, d, tc, dc)))
+    } else if !(d <= d_end + tol_d) {
+        Some(("farther_than_the_end_point", format!("returned (t, point) = ({}, {:?}) at squared distance {}, but the end point is at squared distance {}", t, pt, d, d_end)))
+    } else {
+        None
+    };
+    match failure {
+        None => {
+            sub.sample(|| format!("{} [Bf]: {} -> t = {}, point {:?} after {} scalar operations", api, ctx, t, pt, ops));
+            sub.held(h.get(), !degenerate);
+        }
+        Some((what, msg)) => {
+            let v = violation(PROP, sub, &api, "Bf", "wrong_value", what, format!("{}: {}", ctx, msg), cfg.case_seed(), idx);
+            conclude(sub, h.get(), !degenerate, vec![v]);
         }
     }
 }
@@ -1318,6 +1421,18 @@ fn main() {
             &req_search,
         );
         let s = run_cases(&cfg, proto, ns, |s, i| four!(search_f64, f64, s, i));
+        rep.push(s);
+    }
+    {
+        let proto = req(
+            Sub::new(
+                "search_progress",
+                "bounded progress, on a budgeted f64 (Bf: every scalar operation vek performs is counted, the call is unwound once 2e7 operations are exceeded): random curves in [-10,10] (1/16 all control points equal), query anywhere / on the end point / on the start point, epsilon in {0.5..1e-9}; binary_search_point_by_steps with steps in {0, 1, 2, 3, 5, 8, 16, 33, 100, 1000, 65535} (0 samples is legal: the search starts from the end point) or binary_search_point with 0..7 coarse samples and half_interval in {1, 1/2, 1/4, 0.1, 0.03, 1e-3}: the call must return within the budget, and the result must satisfy the same claims as search_f64",
+            )
+            .with_floor(ns),
+            &req_search,
+        );
+        let s = run_cases(&cfg, proto, ns, |s, i| four!(search_progress, Bf, s, i));
         rep.push(s);
     }
     let nl = cfg.n(48, 2_000);
